@@ -37,6 +37,7 @@ FailsConv(r) ==
     Clause("query_discriminates_index_conventions", Discriminating(r))
     \o Clause("round_trip_pixel", RoundTripPix(r))
     \o Clause("standard_mapping_row_col_1based", StandardMapping(r))
+    \o Clause("round_trip_sky_position", SkyRoundTrip(r))
     \o Clause("vec_length_round_trip", VecLenRoundTrip(r))
     \o Clause("vec_pa_round_trip", VecPaRoundTrip(r))
     \o Clause("vec_length_is_great_circle", VecGreatCircle(r))
